@@ -46,6 +46,8 @@ type FuncContract struct {
 	HasMod   bool
 	MayPanic *bool
 	Nullable map[string]bool
+	Inits    []*Clause // ghost assignments at entry
+	Specialize []string // interface types to devirtualise over their implementations
 	Lets     []*Clause // ghost let bindings: let NAME = expr (entry state)
 	Updates  []*Clause // ghost updates (only for trusted functions): set NAME = expr
 	File     string
@@ -84,7 +86,17 @@ type Axiom struct {
 	Pkg  string
 }
 
+type OnlyRule struct {
+	Props   []string
+	Callee  string
+	Allowed []string // function keys
+	File    string
+	Pkg     string
+	Line    int
+}
+
 type Contracts struct {
+	Onlys  []*OnlyRule
 	Funcs  map[string]*FuncContract // key: pkgpath + "::" + relname, or absolute name for externals
 	Ghosts map[string]*GhostVar
 	Specs  map[string]*SpecFunc
@@ -94,8 +106,8 @@ type Contracts struct {
 	Errors []string
 }
 
-var clauseRe = regexp.MustCompile(`^(requires|ensures|xensures|invariant|decreases|assert|assume|modifies|trusted|pure|inline|noinline|nullable|maypanic|nopanic|let|set)\b(\[[A-Za-z0-9, ]*\])?\s*(.*)$`)
-var topRe = regexp.MustCompile(`^(func|ghost|spec|axiom|lemma|iface)\b(\[[A-Za-z0-9, ]*\])?\s*(.*)$`)
+var clauseRe = regexp.MustCompile(`^(requires|ensures|xensures|invariant|decreases|assert|assume|modifies|trusted|pure|inline|noinline|nullable|maypanic|nopanic|let|set|init|specialize)\b(\[[A-Za-z0-9, ]*\])?\s*(.*)$`)
+var topRe = regexp.MustCompile(`^(func|ghost|spec|axiom|lemma|iface|only)\b(\[[A-Za-z0-9, ]*\])?\s*(.*)$`)
 
 func parseProps(s string) []string {
 	s = strings.Trim(s, "[]")
@@ -235,6 +247,25 @@ func (cs *Contracts) parseFile(fname, pkg, prefix string) {
 				}
 				sf.File = fname
 				cs.Specs[sf.Name] = sf
+			case "only":
+				// only CALLEE in F1, F2
+				i := strings.Index(rest, " in ")
+				if i < 0 {
+					cs.errf(fname, l.line, "only needs 'CALLEE in F1, F2'")
+					continue
+				}
+				r := &OnlyRule{Props: props, Callee: strings.TrimSpace(rest[:i]), File: fname, Pkg: pkg, Line: l.line}
+				for _, a := range strings.Split(rest[i+4:], ",") {
+					a = strings.TrimSpace(a)
+					if a == "" {
+						continue
+					}
+					if pkg != "" && !strings.Contains(a, "::") {
+						a = pkg + "::" + a
+					}
+					r.Allowed = append(r.Allowed, a)
+				}
+				cs.Onlys = append(cs.Onlys, r)
 			case "axiom":
 				e, err := parseExpr(rest)
 				if err != nil {
@@ -267,7 +298,7 @@ func (cs *Contracts) parseFile(fname, pkg, prefix string) {
 		}
 		kind, props, rest := m[1], parseProps(m[2]), strings.TrimSpace(m[3])
 		c := &Clause{Kind: kind, Props: props, Text: rest, File: fname, Line: l.line}
-		if strings.HasPrefix(rest, "@") && kind != "let" && kind != "set" {
+		if strings.HasPrefix(rest, "@") && kind != "let" && kind != "set" && kind != "init" {
 			if i := strings.IndexAny(rest, " \t"); i > 0 {
 				c.Label = rest[1:i]
 				rest = strings.TrimSpace(rest[i:])
@@ -318,7 +349,9 @@ func (cs *Contracts) parseFile(fname, pkg, prefix string) {
 		case "xensures":
 			parse(rest)
 			cur.XEnsures = append(cur.XEnsures, c)
-		case "let", "set":
+		case "specialize":
+			cur.Specialize = append(cur.Specialize, rest)
+		case "let", "set", "init":
 			i := strings.Index(rest, "=")
 			if i < 0 {
 				cs.errf(fname, l.line, "%s needs NAME = EXPR", kind)
@@ -326,9 +359,12 @@ func (cs *Contracts) parseFile(fname, pkg, prefix string) {
 			}
 			c.Label = strings.TrimSpace(rest[:i])
 			parse(rest[i+1:])
-			if kind == "let" {
+			switch kind {
+			case "let":
 				cur.Lets = append(cur.Lets, c)
-			} else {
+			case "init":
+				cur.Inits = append(cur.Inits, c)
+			default:
 				cur.Updates = append(cur.Updates, c)
 			}
 		case "invariant", "decreases":
@@ -379,6 +415,12 @@ func (cs *Contracts) parseFile(fname, pkg, prefix string) {
 			} else {
 				cs.errf(fname, l.line, "assert needs 'at \"text\"'")
 				continue
+			}
+			if strings.HasPrefix(r, "@") {
+				if i := strings.IndexAny(r, " \t"); i > 0 {
+					c.Label = r[1:i]
+					r = strings.TrimSpace(r[i:])
+				}
 			}
 			parse(r)
 			cur.Asserts = append(cur.Asserts, c)
